@@ -1,4 +1,4 @@
-Require Import OPC.Uni OPC.Names OPC.NamesThm OPC.Fs OPC.gen.GenFrame OPC.Frame OPC.FrameThm.
+Require Import OPC.Uni OPC.Names OPC.NamesThm OPC.Fs OPC.gen.GenFrame OPC.Frame OPC.FrameThm OPC.Codec OPC.FrameCodec.
 From Coq Require Import NArith List Bool String. Import ListNotations. Open Scope N_scope.
 
 (* the frame: every syntactic read of a configuration option (Python ast + Jinja ast, regenerated on every run) lies in the
@@ -137,3 +137,19 @@ Theorem C16_title_prefix_option : forall b title name parent,
   (forall c r, title = Some (c :: r) -> model_class_string false title name parent = c :: r).
 Proof. exact title_prefix_option. Qed.
 Print Assumptions C16_title_prefix_option.
+
+(* literal_enums: Enum class and Literal alias accept the same typed values and emit the same JSON (Codec.v step semantics) *)
+Theorem C16_literal_enum_same_wire : forall orc T d e cls vt vals j,
+  forallb (vty_of_json vt) vals = true -> vty_of_json vt j = true ->
+  bind (dec_step orc T d (KEnum cls vt vals) j) (enc_step T e (KEnum cls vt vals)) =
+  bind (dec_step orc T d (KLitEnum vt vals) j) (enc_step T e (KLitEnum vt vals)) /\
+  bind (dec_step orc T d (KLitEnum vt vals) j) (enc_step T e (KLitEnum vt vals)) =
+    if existsb (py_scalar_eqb j) vals then Some j else None.
+Proof. exact literal_enum_same_wire. Qed.
+Print Assumptions C16_literal_enum_same_wire.
+Theorem C16_literal_enum_same_wire_refuted : exists orc T d e cls vt vals j,
+  forallb (vty_of_json vt) vals = true /\ vty_of_json vt j = false /\
+  bind (dec_step orc T d (KEnum cls vt vals) j) (enc_step T e (KEnum cls vt vals)) <>
+  bind (dec_step orc T d (KLitEnum vt vals) j) (enc_step T e (KLitEnum vt vals)).
+Proof. exact literal_enum_same_wire_refuted. Qed.
+Print Assumptions C16_literal_enum_same_wire_refuted.
